@@ -44,6 +44,19 @@ type dayEnv struct {
 	prevTerm *absTerm // what GetPrevJieQiByWholeDay(true) answers
 	lunarMD  [2]int64 // lunar month and day (for table keys)
 	problems map[string]bool
+	// integer fields by canonical name, whatever object they are read from (one date is in play)
+	fields map[string]int64
+	// pillar strings: the accessor name gives the variant, gz its sexagenary index; the day pillar of day k is (jiazi + k) mod 60
+	gz    map[string]int64
+	jiazi int64
+	// extra is consulted first (rule-specific leaves); it receives the complete leaf for nested evaluation
+	extra func(fr *evalFrame, v ssa.Value, leaf leafX) (interface{}, bool)
+}
+
+// absGZ is a pillar string known only by the accessor that produced it (or the day it is the pillar of).
+type absGZ struct {
+	variant string
+	day     int64
 }
 
 func floorMod10(x int64) int64 { return ((x % 10) + 10) % 10 }
@@ -64,12 +77,23 @@ func dayLeaf(c *Ctx, recv ssa.Value, env *dayEnv) leafX {
 		return d, ok && isD
 	}
 	leaf = func(fr *evalFrame, v ssa.Value) (interface{}, bool) {
+		if env.extra != nil {
+			if o, ok := env.extra(fr, v, leaf); ok {
+				return o, true
+			}
+		}
 		if k, ok := v.(*ssa.Const); ok && k.Value == nil {
 			if _, isPtr := k.Type().Underlying().(*types.Pointer); isPtr {
 				return absPtr{"nil", true}, true
 			}
 		}
 		if rc, f, ok := getterField(c, v); ok {
+			if k, ok := env.fields[f]; ok {
+				return k, true
+			}
+			if f == "Lunar.solar" && recv == nil {
+				return absDay{env.now, true}, true
+			}
 			if ofr, o := fr.origin(rc); ofr.parent == nil && o == recv {
 				switch f {
 				case "Lunar.solar":
@@ -181,7 +205,34 @@ func dayLeaf(c *Ctx, recv ssa.Value, env *dayEnv) leafX {
 				s, isS := o.(string)
 				return s, ok && isS
 			}
+			if (recvIsNamed(callee, "Lunar") || recvIsNamed(callee, "LunarYear")) && len(args) == 1 {
+				if _, ok := env.gz[callee.Name()]; ok {
+					return absGZ{variant: callee.Name()}, true
+				}
+				if callee.Name() == "GetDayInGanZhi" {
+					if o, ok := evalWith(fr, args[0], leaf); ok {
+						if l, isL := o.(absLunarOf); isL {
+							return absGZ{variant: "day", day: l.k}, true
+						}
+					}
+				}
+			}
 			switch {
+			case callee.Name() == "GetJiaZiIndex" && len(args) == 1 && env.gz != nil:
+				if o, ok := evalWith(fr, args[0], leaf); ok {
+					if g, isG := o.(absGZ); isG {
+						if g.variant == "day" {
+							return ((env.jiazi+g.day)%60 + 60) % 60, true
+						}
+						return env.gz[g.variant], true
+					}
+				}
+				return nil, false
+			case callee.Name() == "NewNineStar" && callee.Signature.Recv() == nil && len(args) == 1:
+				if i, ok := intArg(0); ok {
+					return absRec{"NewNineStar", "", i}, true
+				}
+				return nil, false
 			case callee.Name() == "NewSolarFromYmd" && callee.Signature.Recv() == nil && len(args) == 3:
 				y, ok1 := intArg(0)
 				m, ok2 := intArg(1)
